@@ -12,6 +12,7 @@ Callee classes (DESIGN §2):
   PRIM    InputRef primitives.
 """
 import os
+from mirq import callee_path as mirq_callee_path
 from interp import (contradicts, add_fact, TOP, UNIT, MOVED, AnalysisError, Inp, has_token, strip_token, taint_of, term_of,
                     norm_cmp, mk_struct, struct_get, describe, repr_term, Frame)
 
@@ -393,8 +394,27 @@ class Models:
             fr.st.ev(*e)
 
     # ------------------------------------------------------------------ F1
+    def local_body_of(self, f):
+        rp = mirq_callee_path(f)
+        if not hasattr(self.I, "_by_path"):
+            self.I._by_path = {}
+            for b_ in self.I.facts.bodies:
+                self.I._by_path.setdefault(b_["path"], []).append(b_)
+        bs = self.I._by_path.get(rp) or []
+        return bs[0] if len(bs) == 1 else None
+
     def f1_call(self, fr, f, vals, dest_ty, line):
         name = f["name"]
+        # retry mode of rule CONTRACT: a body that delegates to another protocol method of the same receiver
+        # (`Repeated::next` -> `self.next_cfg(.., &Default::default())`) is compared after inlining that method
+        root = getattr(self.I, "inline_self_root", None)
+        if root is not None and fr.depth < 3 and (f.get("resolved") or {}).get("self_adt") and \
+                (f.get("resolved") or {}).get("self_adt") == root.get("impl_self_adt") and name != root["name"] and \
+                f.get("trait") != "private::Mode":
+            cb = self.local_body_of(f)
+            recv = self.deref_val(fr, vals[0]) if vals else None
+            if cb is not None and cb is not root and self.child_name(fr, vals[0]) == "self":
+                return self.I.run_body(cb, list(vals), fr.st, fr.depth + 1)
         idx, n = self.find_inp_arg(vals)
         if idx is None:
             raise AnalysisError("F1 call %s without an input argument in %s" % (f["path"], fr.body["uname"]))
@@ -1005,7 +1025,7 @@ class Models:
             return [(st, ("sym", ("is_empty", term_of(dv[0]))))]
         if trait == "std::iter::Iterator" and name in ("zip", "map", "enumerate", "rev", "chain", "take", "by_ref"):
             return [(st, dv[0] if isinstance(dv[0], tuple) and dv[0][0] == "iter" else ("iter", term_of(dv[0]), False))]
-        if trait == "std::iter::Iterator" and name in ("try_for_each", "for_each", "try_fold"):
+        if trait == "std::iter::Iterator" and name in ("try_for_each", "for_each", "try_fold", "find_map"):
             return self.iterate(fr, vals, name, line)
 
         # ---- memo table
@@ -1049,6 +1069,16 @@ class Models:
             for v in vals[1:]:
                 for tag in self.cursor_tags(fr, v):
                     st.ev("stash", f["name"], self.desc_tag(st, tag))
+        # `Default::default()` of a local type / of Option: evaluate (derived impls are plain aggregates of defaults)
+        if f["name"] == "default" and (f.get("trait") or "") == "std::default::Default" and not vals:
+            sty = f.get("self_ty", "")
+            if sty.startswith("std::option::Option<"):
+                return [(st, ("enum", "Option", "None", ()))]
+            if sty == "bool":
+                return [(st, ("bool", False))]
+            cb = self.local_body_of(f)
+            if cb is not None and fr.depth < 4 and getattr(self.I, "inline_self_root", None) is not None:
+                return self.I.run_body(cb, [], fr.st, fr.depth + 1)
         self.I.unknown_callees[path] = self.I.unknown_callees.get(path, 0) + 1
         if dest_ty == "()":
             return [(st, UNIT)]
@@ -1135,22 +1165,35 @@ class Models:
         return self.user_call(fr, fv, args, [], "?", line)
 
     def iterate(self, fr, vals, name, line):
-        """try_for_each / for_each: zero or more applications of the closure (fixpoint over states)."""
+        """try_for_each / for_each / find_map: zero or more applications of the closure (fixpoint over states)."""
         cl = vals[-1]
         results = []
         seen = set()
         work = [fr.st.copy()]
-        elem = ("sym", ("elem", term_of(self.deref_val(fr, vals[0]))))
+        itv = self.deref_val(fr, vals[0])
+        src = itv[1] if isinstance(itv, tuple) and itv[0] == "iter" else term_of(itv)
+        elem = ("sym", ("elem", src))
         while work:
             s = work.pop()
             k = s.key(fr.fid)
             if k in seen:
                 continue
             seen.add(k)
-            # exit with Continue/Ok(())
-            results.append((s.copy(), ("enum", "Result", "Ok", (UNIT,)) if name.startswith("try") else UNIT))
+            # exit with Continue/Ok(()) (find_map: exhausted without a hit)
+            if name == "find_map":
+                results.append((s.copy(), ("enum", "Option", "None", ())))
+            else:
+                results.append((s.copy(), ("enum", "Result", "Ok", (UNIT,)) if name.startswith("try") else UNIT))
             f2 = Frame(self.I, fr.body, fr.fid, s.copy(), fr.depth)
             for s2, r in self.apply(f2, cl, [elem], line):
+                if name == "find_map":
+                    f3 = Frame(self.I, fr.body, fr.fid, s2, fr.depth)
+                    for s3, e in self.split_enum(f3, r, ["Some", "None"]):
+                        if e[2] == "Some":
+                            results.append((s3, e))
+                        else:
+                            work.append(s3)
+                    continue
                 if name.startswith("try"):
                     if isinstance(r, tuple) and r[0] == "enum" and r[2] in ("Err", "Break", "None"):
                         results.append((s2, r))
